@@ -97,7 +97,7 @@ def _step_points(prog):
 
 
 # statement / query kinds the domain flavours are known to carry (lengths come back as Timedeltas, labels as Timestamps)
-DOM_OK_STMTS = {"new", "from_values", "layer", "read", "un", "bin", "clip", "mask", "maskt", "fills", "fillg", "shift", "diff", "agg", "query"}
+DOM_OK_STMTS = {"new", "from_values", "layer", "read", "un", "bin", "clip", "mask", "maskt", "fills", "fillg", "shift", "diff", "agg", "query", "slicehist"}
 DOM_OK_Q = {"limit", "sample", "nsteps", "points", "closed", "integral", "mean", "value_sums", "agg", "vir", "min", "max", "slicer",
             "cov", "corr", "rolling", "identical", "bool", "var", "median", "mode", "ecdf", "percentile", "fractile", "hist"}
 
@@ -550,7 +550,14 @@ def gen_C09(rng, tier):
         hstat = rng.choice(["sum", "frequency", "density", "probability"])
         if hstat in ("frequency", "density"):
             pow2 = False      # quotients by bin widths are not exact: tolerant comparison
-        qs = [C.query(0, "ecdf", side="right", ys=ys), C.query(0, "ecdf", side="left", ys=ys),
+        import math
+        ucl = rng.choice(SIDES)
+        if ucl == "left":
+            ue = list(range(math.floor(dvals[0]), math.floor(dvals[-1]) + 2))
+        else:
+            ue = list(range(math.ceil(dvals[0]) - 1, math.ceil(dvals[-1]) + 1))
+        unitq = C.query(0, "hist", bins=[(F(a), F(a + 1)) for a in ue[:-1]], closed=ucl, stat=rng.choice(["sum", "probability"]), unit=True)
+        qs = [unitq, C.query(0, "ecdf", side="right", ys=ys), C.query(0, "ecdf", side="left", ys=ys),
               C.query(0, "percentile", ps=ps), C.query(0, "fractile", ps=[p / 100 for p in ps]),
               C.query(0, "median"), C.query(0, "mode"), C.query(0, "value_sums"),
               C.query(0, "fractile", ps=[F(i, 4) for i in range(1, 4)]) if pow2 else C.query(0, "mode"),
@@ -1147,6 +1154,11 @@ def gen_C11(rng, tier):
             warmup(rng, prog, 0, leaf_points(f), qset=TOL_WARM)
         if k % 2 == 0:
             ivs = rand_intervals(rng, f, tiling=rng.random() < 0.4)
+            if rng.random() < 0.3:      # one histogram per slice
+                dv = sorted({v for v in f[1] if v is not None}) or [F(0)]
+                edges = sorted(set([dv[0] - 1] + dv + [dv[-1] + 1]))
+                prog.append(C.slicehist(0, list(range(40, 40 + len(ivs))), ivs, icl, list(zip(edges, edges[1:])), rng.choice(SIDES),
+                                        rng.choice(["sum", "probability"])))
             safe = median_is_float_safe(f, c, ivs) and not any(st_["s"] == "layer" for st_ in prog)
             for st in rng.sample(SSTATS, 3):
                 if st == "median" and not safe:
